@@ -1003,11 +1003,73 @@ MODELS2 = [
     (P(r'^<Box<.*> as From<.*>>::from$|^Box::<.*>::new$'), m_box_from),
     (P(r'^<Box<.*> as Clone>::clone$'), m_box_clone),
     (P(r'^<Box<.*> as Drop>::drop$'), m_noop_unit),
-    (P(r"^<&*(Box<.*>|Quantifier|bool|Grapheme|GraphemeCluster<'_>|BTreeSet<.*>|Vec<Expression<'_>>|Expression<'_>) as PartialEq>::(eq|ne)$"), m_deep_eq),
+    (P(r"^<&*(Box<.*>|Quantifier|bool|char|u8|u16|u32|u64|usize|Grapheme|GraphemeCluster<'_>|BTreeSet<.*>|Vec<Expression<'_>>|Expression<'_>) as PartialEq(<.*>)?>::(eq|ne)$"), m_deep_eq),
     (P(r'^core::slice::<impl \[.*\]>::reverse$'), m_slice_reverse),
     (P(r'^(std::)?slice::<impl \[.*\]>::sort_by_key::<'), m_sort_by_key),
     (P(r'^BTreeSet::<.*>::union$|^HashSet::<.*>::union$'), m_set_union),
     (P(r' as Itertools>::zip_longest::<'), m_zip_longest),
     (P(r'^Option::<.*>::unwrap_or_default$'), m_unwrap_or_default),
     (P(r"^<(Expression<'_>|Option<Expression<'_>>|GraphemeCluster<'_>|Grapheme|Quantifier|Vec<.*>) as Clone>::clone$"), m_plain_clone),
+] + MODELS2
+
+
+# --------------------------------------------------------------------------- unic-char-range iteration, sorted BTreeSet<char>, scalar slice::contains
+def m_charrange_all(ex, st, fr, callee, a, depth):
+    return TupV((BV(0, 32), BV(0x10FFFF, 32)), ('low', 'high'), 'CharRange')
+
+
+def m_charrange_iter(ex, st, fr, callee, a, depth):
+    r = deref(st, a[0])
+    return IterV('charrange', items=(r.get('low'), r.get('high')))
+
+
+def m_chariter_position(ex, st, fr, callee, a, depth):
+    """CharIter::position(|it| it == c) over CharRange::all(): the index of c among all scalar values in code-point order
+    (surrogates are skipped).  The closure is run once on a fresh symbolic element and must reduce to `x == t`."""
+    it = deref(st, a[0])
+    if not (isinstance(it, IterV) and it.kind == 'charrange') or concrete(it.items[0]) != 0 or concrete(it.items[1]) != 0x10FFFF:
+        raise Inconclusive('CharIter::position on a range other than CharRange::all()')
+    x = z3.BitVec('pos_probe!%d' % ex.steps, 32)
+    outs = ex.call_merged(st.fork(), a[1], [x], depth)
+    if len(outs) != 1 or outs[0].panic or not z3.is_bool(outs[0].val):
+        raise Inconclusive('position closure did not reduce to one Boolean')
+    t = z3.simplify(outs[0].val)
+    target = None
+    if z3.is_eq(t):
+        l, r_ = t.arg(0), t.arg(1)
+        if l.eq(x):
+            target = r_
+        elif r_.eq(x):
+            target = l
+    if target is None:
+        raise Inconclusive('position closure is not an equality test: %s' % t)
+    idx = z3.If(z3.ULT(target, BV(0xD800, 32)), target, target - BV(0x800, 32))
+    return some(z3.ZeroExt(32, idx))
+
+
+def m_btreeset_char_iter(ex, st, fr, callee, a, depth):
+    """BTreeSet<char> iterates in ascending order: the elements are sorted (forks on undecided comparisons)"""
+    r, sv = _set_ref(st, a[0])
+    items = list(sv.get('items').items)
+    outs = []
+    for s, srt in _stable_sort(ex, st, [RefV(r.addr, r.path + (0, i)) for i in range(len(items))],
+                               lambda ss, p, q: cmp_scalar_forks(ex, ss, deref(ss, p), deref(ss, q))):
+        outs.append((s, IterV('list', items=tuple(srt))))
+    return outs
+
+
+def m_slice_contains_scalar(ex, st, fr, callee, a, depth):
+    v = deref(st, a[0])
+    x = deref(st, a[1])
+    if isinstance(v, ListV) and is_z3(x) and all(is_z3(deref(st, y)) for y in v.items):
+        return z3.Or(*[deref(st, y) == x for y in v.items]) if v.items else z3.BoolVal(False)
+    return NotImplemented
+
+
+MODELS2 = [
+    (P(r'^CharRange::all$'), m_charrange_all),
+    (P(r'^CharRange::iter$'), m_charrange_iter),
+    (P(r'^<CharIter as Iterator>::position::<'), m_chariter_position),
+    (P(r'^BTreeSet::<char>::iter$|^<&BTreeSet<char> as IntoIterator>::into_iter$'), m_btreeset_char_iter),
+    (P(r'^core::slice::<impl \[(char|u8|u16|u32|usize)\]>::contains$'), m_slice_contains_scalar),
 ] + MODELS2
